@@ -158,6 +158,8 @@ def ecdsa_signature_normalize(sig, context=None):
         raise ValueError("Signature should be 64 bytes long")
     r = int.from_bytes(sig[:32], "little")
     s = int.from_bytes(sig[32:], "little")
+    if r >= _key.SECP256K1_ORDER or s >= _key.SECP256K1_ORDER:
+        raise ValueError("Invalid signature")
     if s > _key.SECP256K1_ORDER_HALF:
         s = _key.SECP256K1_ORDER - s
     return r.to_bytes(32, "little") + s.to_bytes(32, "little")
@@ -368,6 +370,8 @@ def ecdsa_recover(sig, msghash, context=None):
     r = int.from_bytes(sig[:32], "little")
     s = int.from_bytes(sig[32:64], "little")
     z = int.from_bytes(msghash, "big")
+    if r >= _key.SECP256K1_ORDER or s >= _key.SECP256K1_ORDER:
+        raise ValueError("Invalid signature")
     # r = Rx mod N, so R can be 02x, 03x, 02(N+x), 03(N+x)
     # two latter cases only if N+x < P
     r_candidates = [
